@@ -107,6 +107,29 @@ func c14One(c *Ctx, cs c14Case) {
 		return
 	}
 	got := Canon(p)
+	// measured outcome distribution (which mechanisms of the conversion fired)
+	c.Res.Hit(cs.Format + ":obs:mappings=" + bucket(len(p.Mapping)))
+	for _, m := range p.Mapping {
+		if m.Limit == ^uint64(0) && m.File == "" && m.Start == 0 {
+			c.Res.Hit(cs.Format + ":obs:catch-all-mapping")
+			break
+		}
+	}
+	nomap, zero := 0, 0
+	for _, l := range p.Location {
+		if l.Mapping == nil {
+			nomap++
+		}
+		if l.Address == 0 {
+			zero++
+		}
+	}
+	if nomap > 0 {
+		c.Res.Hit(cs.Format + ":obs:location-without-mapping")
+	}
+	if len(p.Location) > 0 {
+		c.Res.Hit(cs.Format + ":obs:locations=" + bucket(len(p.Location)))
+	}
 	okOracle, where := c14Same(exp, got, cs.Approx)
 	if !okOracle {
 		// a well-formed legacy document that is at the same time a syntactically valid protobuf
@@ -836,7 +859,7 @@ func runC14(c *Ctx) {
 		return
 	}
 	r := NewRng(c.Seed)
-	n := 260 * c.Scale
+	n := 900 * c.Scale
 	for i := 0; i < n; i++ {
 		for fi := range c14Formats {
 			cs, g := c14Generate(c, r, fi)
